@@ -42,3 +42,67 @@ pub open spec fn sonic_shift(vk: &VerifierKey, d: Option<usize>) -> FS { match d
 pub open spec fn sonic_pairing_sum(e: Seq<(Option<usize>, G1)>, vk: &VerifierKey, k: nat) -> FS decreases k {
     if k == 0 { f_zero() } else { f_add(sonic_pairing_sum(e, vk, (k - 1) as nat), f_mul(e[k - 1].1@, sonic_shift(vk, e[k - 1].0))) }
 }
+
+// ---------------- regrouping: the sum over the buckets is the sum over the commitments (used by the completeness lemma) ----------------
+// S(e, m, k) = sum_{i < k} bucket(e[i].key, first m commitments) * shift(e[i].key)
+pub open spec fn sonic_bsum(e: Seq<(Option<usize>, G1)>, cs: Seq<&LabeledCommitment<Commitment>>, s: SS, vk: &VerifierKey, m: nat, k: nat) -> FS decreases k {
+    if k == 0 { f_zero() } else { f_add(sonic_bsum(e, cs, s, vk, m, (k - 1) as nat), f_mul(sonic_bucket(cs, s, None, e[k - 1].0, m), sonic_shift(vk, e[k - 1].0))) }
+}
+// T(n) = sum_{i < n} (C_i xi_i) * shift(d_i)
+pub open spec fn sonic_csum(cs: Seq<&LabeledCommitment<Commitment>>, s: SS, vk: &VerifierKey, n: nat) -> FS decreases n {
+    if n == 0 { f_zero() } else { f_add(sonic_csum(cs, s, vk, (n - 1) as nat), f_mul(f_mul(cs[n - 1].commitment.0@, sp_chal(s, (n - 1) as nat)), sonic_shift(vk, cs[n - 1].degree_bound))) }
+}
+pub open spec fn sonic_keys_distinct(e: Seq<(Option<usize>, G1)>) -> bool { forall|i: int, j: int| 0 <= i < j < e.len() ==> e[i].0 != e[j].0 }
+pub open spec fn sonic_has_key(e: Seq<(Option<usize>, G1)>, d: Option<usize>, k: nat) -> bool { exists|i: int| 0 <= i < k && (#[trigger] e[i]).0 == d }
+pub proof fn lemma_sonic_bsum_step(e: Seq<(Option<usize>, G1)>, cs: Seq<&LabeledCommitment<Commitment>>, s: SS, vk: &VerifierKey, m: nat, k: nat)
+    requires m >= 1, k <= e.len(), sonic_keys_distinct(e)
+    ensures sonic_bsum(e, cs, s, vk, m, k) == f_add(sonic_bsum(e, cs, s, vk, (m - 1) as nat, k),
+        if sonic_has_key(e, cs[m - 1].degree_bound, k) { f_mul(f_mul(cs[m - 1].commitment.0@, sp_chal(s, (m - 1) as nat)), sonic_shift(vk, cs[m - 1].degree_bound)) } else { f_zero() })
+    decreases k
+{
+    let m1 = (m - 1) as nat; let d = cs[m - 1].degree_bound; let t = f_mul(cs[m - 1].commitment.0@, sp_chal(s, m1)); let sh = sonic_shift(vk, d);
+    if k == 0 { ax_add_zero(f_zero()); }
+    else {
+        let k1 = (k - 1) as nat; let key = e[k - 1].0;
+        lemma_sonic_bsum_step(e, cs, s, vk, m, k1);
+        let a1 = sonic_bsum(e, cs, s, vk, m1, k1); let b1 = sonic_bucket(cs, s, None, key, m1); let shk = sonic_shift(vk, key);
+        if key == d {
+            // no earlier entry has this key
+            assert(!sonic_has_key(e, d, k1)) by { if sonic_has_key(e, d, k1) { let i = choose|i: int| 0 <= i < k1 && (#[trigger] e[i]).0 == d; assert(e[i].0 != e[k - 1].0); } }
+            assert(sonic_has_key(e, d, k)) by { assert(e[k - 1].0 == d); }
+            assert(sonic_bucket(cs, s, None, key, m) == f_add(b1, t));
+            ax_add_zero(a1);
+            // a1 + (b1 + t) sh == (a1 + b1 sh) + t sh
+            ax_mul_comm(f_add(b1, t), sh); ax_distrib(sh, b1, t); ax_mul_comm(sh, b1); ax_mul_comm(sh, t);
+            ax_add_assoc(a1, f_mul(b1, sh), f_mul(t, sh));
+        } else {
+            assert(sonic_bucket(cs, s, None, key, m) == b1);
+            assert(sonic_has_key(e, d, k) == sonic_has_key(e, d, k1)) by {
+                if sonic_has_key(e, d, k) { let i = choose|i: int| 0 <= i < k && (#[trigger] e[i]).0 == d; assert(i != k - 1); assert(0 <= i < k1 && e[i].0 == d); }
+                if sonic_has_key(e, d, k1) { let i = choose|i: int| 0 <= i < k1 && (#[trigger] e[i]).0 == d; assert(0 <= i < k && e[i].0 == d); }
+            }
+            let x = if sonic_has_key(e, d, k1) { f_mul(t, sh) } else { f_zero() };
+            // (a1 + x) + b1 shk == (a1 + b1 shk) + x
+            ax_add_assoc(a1, x, f_mul(b1, shk)); ax_add_comm(x, f_mul(b1, shk)); ax_add_assoc(a1, f_mul(b1, shk), x);
+        }
+    }
+}
+pub proof fn lemma_sonic_bsum_zero(e: Seq<(Option<usize>, G1)>, cs: Seq<&LabeledCommitment<Commitment>>, s: SS, vk: &VerifierKey, k: nat)
+    requires k <= e.len()
+    ensures sonic_bsum(e, cs, s, vk, 0, k) == f_zero()
+    decreases k
+{ if k > 0 { lemma_sonic_bsum_zero(e, cs, s, vk, (k - 1) as nat); ax_mul_comm(f_zero(), sonic_shift(vk, e[k - 1].0)); lemma_mul_zero(sonic_shift(vk, e[k - 1].0)); ax_add_zero(f_zero()); } }
+pub proof fn lemma_sonic_bsum_total(e: Seq<(Option<usize>, G1)>, cs: Seq<&LabeledCommitment<Commitment>>, s: SS, vk: &VerifierKey, m: nat)
+    requires sonic_keys_distinct(e), forall|i: int| 0 <= i < m ==> sonic_has_key(e, (#[trigger] cs[i]).degree_bound, e.len())
+    ensures sonic_bsum(e, cs, s, vk, m, e.len()) == sonic_csum(cs, s, vk, m)
+    decreases m
+{
+    if m == 0 { lemma_sonic_bsum_zero(e, cs, s, vk, e.len()); }
+    else { lemma_sonic_bsum_total(e, cs, s, vk, (m - 1) as nat); lemma_sonic_bsum_step(e, cs, s, vk, m, e.len()); assert(sonic_has_key(e, cs[m - 1].degree_bound, e.len())); }
+}
+// the pairing sum `check_elems` computes over the map's entries is S(e, n, |e|)
+pub proof fn lemma_sonic_pairing_sum_is_bsum(e: Seq<(Option<usize>, G1)>, cs: Seq<&LabeledCommitment<Commitment>>, s: SS, vk: &VerifierKey, n: nat, k: nat)
+    requires k <= e.len(), forall|i: int| 0 <= i < e.len() ==> (#[trigger] e[i]).1@ == f_add(f_zero(), sonic_bucket(cs, s, None, e[i].0, n))
+    ensures sonic_pairing_sum(e, vk, k) == sonic_bsum(e, cs, s, vk, n, k)
+    decreases k
+{ if k > 0 { lemma_sonic_pairing_sum_is_bsum(e, cs, s, vk, n, (k - 1) as nat); let b = sonic_bucket(cs, s, None, e[k - 1].0, n); ax_add_comm(f_zero(), b); ax_add_zero(b); } }
